@@ -376,7 +376,11 @@ Definition compare_client (s : scn) (extra : Z -> option bytes) : option sexp :=
       end) peers in
   if negb (Nat.eqb (List.length peers) (List.length accs)) || bad_peer then
     Some (mism "content" "peer-received-or-not-closed" [L (map (fun b => B b) wrote)])
-  else if negb (forallb (fun l => (-150 <=? l) && (l <=? tol)) lats) then
+  (* a submission made while there is no connection wakes the no-connection wait (select on msgsToPanel) and
+     makes the client dial at once; run_life only knows the timer, so with submissions queued before the
+     connection (s_subconn < 0) a dial may come EARLIER than the model's, by up to one period - never later *)
+  else if negb (forallb (fun l => ((if (s_subconn s <? 0) && negb (match s_subs s with [] => true | _ => false end)
+                                      then - (noconn (the_cfg s) + 150) else -150) <=? l) && (l <=? tol)) lats) then
     Some (mism "timing" "dial" [L (map I lats)])
   else if negb (list_eqb grp_times_ok mg og) then
     Some (mism "timing" "events" [L (map times_of_grp mg)])
